@@ -12,7 +12,7 @@ def items(tier):
     out = []
     maxL = 3 if tier == "quick" else 4
     for p, strat, tags in corpus.entries(tier):
-        for L in ([maxL] if tier == "quick" else range(0, maxL + 1)):
+        for L in ([] if corpus.windows_only(tags, tier) else [maxL] if tier == "quick" else corpus.lengths(tags, tier, maxL)):
             out.append(mk("C11", p, "basic", L, "", strategy=strat))
         for pre, post in corpus.windows(p):
             # windows of patterns with any-char constructs: well-formed UTF-8 only (the ill-formed-UTF-8 defect class is
